@@ -315,6 +315,11 @@ func (s *Solver) check1(pc []*Term, extra []*Term, vars []*Term, limitMs int) (S
 	for _, e := range extra {
 		s.define(e)
 	}
+	for _, v := range vars {
+		if !v.IsConst() {
+			s.define(v)
+		}
+	}
 	s.record = true
 	s.buf.Reset()
 	s.send("(push 1)\n")
@@ -407,10 +412,16 @@ func (s *Solver) getValues(vars []*Term) map[string]uint64 {
 		}
 		var names []string
 		for _, v := range vars[i:j] {
+			if v.IsConst() {
+				continue
+			}
 			if !s.defined[v.id] {
 				s.define(v)
 			}
-			names = append(names, v.name)
+			names = append(names, v.ref())
+		}
+		if len(names) == 0 {
+			continue
 		}
 		s.send("(get-value (" + strings.Join(names, " ") + "))\n(echo \"<<done>>\")\n")
 		txt := strings.Join(s.readUntilMarker(), " ")
